@@ -1,25 +1,293 @@
 (* Proofs for property C08 (ATT MTU negotiation bounds every PDU). *)
 From Coq Require Import Lia ZifyBool.
-From BT Require Import Base.ListX AttDb.AttDbModel NQueue.NQueueModel AttSrv.AttSrvModel AttSrv.AttSrvNotifSpec AttSrv.AttSrvSpecC08.
+From BT Require Import Base.ListX AttDb.AttDbModel NQueue.NQueueModel AttSrv.AttSrvModel AttSrv.AttSrvSpecC01
+  AttSrv.AttSrvProofsC01 AttSrv.AttSrvFrame.
 Local Open Scope N_scope.
 
-Lemma error_response_state opcode code h b n r : error_response opcode code h b n = Some r -> snd r <= 5.
-Proof.
-  unfold error_response. destruct (5 <=? n).
-  - destruct (put b 0 _); [|discriminate]. intros [= <-]. cbn. lia.
-  - intros [= <-]. cbn. lia.
-Qed.
-
-(* an Exchange MTU Request with a wrong length or a client MTU below 23 leaves the state unchanged *)
-Lemma exchange_mtu_invalid_unchanged c st cid pdu b n st' r :
+(* ------------------------------------------------------------------ Exchange MTU *)
+(* an Exchange MTU Request with a wrong length or a client MTU below 23 is answered with
+   01 02 00 00 04 and leaves the state unchanged *)
+Lemma exchange_mtu_invalid c st cid pdu b n st' r :
+  5 <= n -> rd pdu 0 = Some 2 ->
   handle_exchange_mtu c st cid pdu b n = Some (st', r) ->
-  (len pdu <> 3 \/ exists m, rd16 pdu 1 = Some m /\ m < default_att_mtu) -> st' = st.
+  (len pdu <> 3 \/ exists m, rd16 pdu 1 = Some m /\ m < default_att_mtu) ->
+  st' = st /\ snd r = 5 /\ takeN 5 (fst r) = [1; 2; 0; 0; 4].
 Proof.
-  unfold handle_exchange_mtu. destruct (rd pdu 0) as [op|]; [|discriminate].
+  intros Hn Hop. unfold handle_exchange_mtu. rewrite Hop.
+  assert (ER : forall e, error_response 2 err_invalid_pdu 0 b n = Some e -> snd e = 5 /\ takeN 5 (fst e) = [1; 2; 0; 0; 4]).
+  { unfold error_response. replace (5 <=? n) with true by (symmetry; apply N.leb_le; auto).
+    intros e He. destruct (put b 0 _) eqn:P; [|discriminate]. inv He. split; [reflexivity|].
+    apply put_take in P. exact P. }
   destruct (negb (len pdu =? 3)) eqn:E3.
-  - destruct (error_response _ _ _ _ _); [|discriminate]. intros [= <- _]. reflexivity.
+  - destruct (error_response _ _ _ _ _) eqn:E; [|discriminate]. intros H _. inv H. split; auto.
   - intros H [L|(m & Hm & Lm)].
     + apply negb_false_iff, N.eqb_eq in E3. contradiction.
     + rewrite Hm in H. replace (m <? default_att_mtu) with true in H by (symmetry; apply N.ltb_lt; exact Lm).
-      destruct (error_response _ _ _ _ _); [|discriminate]. injection H as <- _. reflexivity.
+      destruct (error_response _ _ _ _ _) eqn:E; [|discriminate]. inv H. split; auto.
+Qed.
+
+(* a valid one sets the client MTU of this connection and answers 03 <server MTU> *)
+Lemma exchange_mtu_valid c st cid lo hi b n k :
+  3 <= len b -> get_conn st cid = Some k -> default_att_mtu <= lo + 256 * hi ->
+  exists b', handle_exchange_mtu c st cid [2; lo; hi] b n
+             = Some (set_conn st cid (mkConn (lo + 256 * hi) (cccd k) (encrypted k) (pairing k) (nq k)), (b', 3))
+             /\ takeN 3 b' = 3 :: le16 (max_mtu c) /\ len b' = len b.
+Proof.
+  intros Hb G Hm. unfold handle_exchange_mtu.
+  change (rd [2; lo; hi] 0) with (Some 2). change (len [2; lo; hi]) with 3.
+  change (rd16 [2; lo; hi] 1) with (Some (lo + 256 * hi)). change (negb (3 =? 3)) with false. cbv iota beta.
+  replace (lo + 256 * hi <? default_att_mtu) with false by (symmetry; apply N.ltb_ge; exact Hm).
+  rewrite G.
+  destruct (put b 0 (3 :: le16 (max_mtu c))) as [b'|] eqn:P.
+  - exists b'. split; [reflexivity|]. split; [apply put_take in P; exact P|eapply put_len; eauto].
+  - exfalso. destruct (put_ok b 0 (3 :: le16 (max_mtu c))) as (b' & P'); [|congruence].
+    change (len (3 :: le16 (max_mtu c))) with 3. lia.
+Qed.
+
+(* ------------------------------------------------------------------ the client MTU along a history *)
+Definition valid_exchange (pdu : list N) : option N :=
+  match pdu with
+  | [a; lo; hi] => if (a =? 2) && (default_att_mtu <=? lo + 256 * hi) then Some (lo + 256 * hi) else None
+  | _ => None
+  end.
+
+Lemma valid_exchange_inv pdu v :
+  valid_exchange pdu = Some v -> exists lo hi, pdu = [2; lo; hi] /\ v = lo + 256 * hi /\ default_att_mtu <= v.
+Proof.
+  unfold valid_exchange. destruct pdu as [|a [|lo [|hi [|x t]]]]; try discriminate.
+  destruct (a =? 2) eqn:A; [|discriminate]. destruct (_ <=? _) eqn:L; [|discriminate].
+  apply N.eqb_eq in A. apply N.leb_le in L. subst. intros H. inv H. eauto.
+Qed.
+
+(* the specification: the last valid client MTU of connection cid (23 on a fresh connection) *)
+Definition mtu_after (cid : nat) (m : N) (o : srv_op) : N :=
+  match o with
+  | OpIn i pdu n =>
+      if Nat.eqb i cid && (default_att_mtu <=? n) then match valid_exchange pdu with Some v => v | None => m end else m
+  | OpDisc i => if Nat.eqb i cid then default_att_mtu else m
+  | _ => m
+  end.
+
+Fixpoint mtu_history (cid : nat) (m : N) (ops : list srv_op) : N :=
+  match ops with [] => m | o :: t => mtu_history cid (mtu_after cid m o) t end.
+
+Lemma valid_exchange_opcode pdu v : valid_exchange pdu = Some v -> rd pdu 0 = Some 2.
+Proof.
+  intros H. apply valid_exchange_inv in H. destruct H as (lo & hi & -> & _). reflexivity.
+Qed.
+
+Lemma valid_exchange_not2 pdu op : rd pdu 0 = Some op -> op <> 2 -> valid_exchange pdu = None.
+Proof.
+  intros H N. destruct (valid_exchange pdu) eqn:E; auto. apply valid_exchange_opcode in E. congruence.
+Qed.
+
+Lemma exchange_mtu_invalid_unchanged' c st cid pdu b n st' r :
+  rd pdu 0 = Some 2 -> valid_exchange pdu = None ->
+  handle_exchange_mtu c st cid pdu b n = Some (st', r) -> st' = st.
+Proof.
+  intros Hop V. unfold handle_exchange_mtu. rewrite Hop.
+  destruct (negb (len pdu =? 3)) eqn:E3.
+  - destruct (error_response _ _ _ _ _); [|discriminate]. intros H. inv H. reflexivity.
+  - apply negb_false_iff, N.eqb_eq in E3.
+    destruct pdu as [|a [|lo [|hi [|x t]]]]; try (unfold len in E3; cbn [length] in E3; lia).
+    change (rd (a :: lo :: hi :: nil) 0) with (Some a) in Hop. inv Hop.
+    change (rd16 [2; lo; hi] 1) with (Some (lo + 256 * hi)). cbv iota beta.
+    unfold valid_exchange in V. change (2 =? 2) with true in V. cbn [andb] in V.
+    destruct (default_att_mtu <=? lo + 256 * hi) eqn:L; [discriminate|].
+    replace (lo + 256 * hi <? default_att_mtu) with true by (symmetry; apply N.ltb_lt; apply N.leb_gt in L; exact L).
+    destruct (error_response _ _ _ _ _); [|discriminate]. intros H. inv H. reflexivity.
+Qed.
+
+Lemma att_input_exchange c st cid pdu n st' rs k :
+  get_conn st cid = Some k -> rd pdu 0 = Some 2 ->
+  att_input c st cid pdu n = Some (st', rs) ->
+  exists r, handle_exchange_mtu c st cid pdu (repeat fill_byte (N.to_nat n)) (N.min n (negotiated_mtu c k)) = Some (st', r).
+Proof.
+  intros G Hop. unfold att_input. rewrite G.
+  destruct (len pdu =? 0); [discriminate|]. destruct (_ <? _); [discriminate|]. rewrite Hop.
+  change (2 =? 1) with false. change (2 =? 2) with true. cbv iota.
+  destruct (handle_exchange_mtu _ _ _ _ _ _) as [[s1 [b1 m]]|]; [|discriminate].
+  destruct (m <=? len b1); [|discriminate]. intros H. inv H. eauto.
+Qed.
+
+Lemma att_input_opcode2 c st cid pdu n k :
+  get_conn st cid = Some k -> rd pdu 0 = Some 2 -> default_att_mtu <= N.min n (negotiated_mtu c k) ->
+  att_input c st cid pdu n =
+  match handle_exchange_mtu c st cid pdu (repeat fill_byte (N.to_nat n)) (N.min n (negotiated_mtu c k)) with
+  | Some (st', (b', m)) => if m <=? len b' then Some (st', takeN m b') else None
+  | None => None
+  end.
+Proof.
+  intros G Hop L. unfold att_input. rewrite G.
+  assert (len pdu =? 0 = false) as ->.
+  { apply N.eqb_neq. unfold rd in Hop. destruct (0 <? len pdu) eqn:E; [|discriminate]. apply N.ltb_lt in E. lia. }
+  replace (N.min n (negotiated_mtu c k) <? default_att_mtu) with false by (symmetry; apply N.ltb_ge; exact L).
+  rewrite Hop. change (2 =? 1) with false. change (2 =? 2) with true. cbv iota.
+  destruct (handle_exchange_mtu _ _ _ _ _ _) as [[s1 [b1 m]]|]; reflexivity.
+Qed.
+
+Lemma set_conn_get st cid k k0 : get_conn st cid = Some k0 -> get_conn (set_conn st cid k) cid = Some k.
+Proof. intros G. unfold get_conn, set_conn. cbn [conns]. apply nth_error_upd_eq. eapply nth_error_lt; eauto. Qed.
+
+Lemma set_conn_get_other st cid k j : j <> cid -> get_conn (set_conn st cid k) j = get_conn st j.
+Proof. intros N. unfold get_conn, set_conn. cbn [conns]. apply nth_error_upd_neq. auto. Qed.
+
+Definition mtu_inv (c : cfg) (k : conn) : Prop := default_att_mtu <= client_mtu k.
+
+(* one operation: the model's client MTU follows the specification *)
+Lemma srv_step_mtu c st o cid k :
+  default_att_mtu <= max_mtu c ->
+  get_conn st cid = Some k -> default_att_mtu <= client_mtu k ->
+  exists k', get_conn (fst (srv_step c st o)) cid = Some k' /\ client_mtu k' = mtu_after cid (client_mtu k) o.
+Proof.
+  intros W G M.
+  destruct o as [i pdu n|i n|i e p|i|bu kd gci|gci|gci data]; cbn [srv_step mtu_after].
+  - (* l2cap_input *)
+    destruct (Nat.eqb i cid) eqn:Ei.
+    + apply Nat.eqb_eq in Ei. subst i. cbn [andb].
+      destruct (att_input c st cid pdu n) as [[st' rs]|] eqn:A; cbn [fst].
+      * assert (Hn : (default_att_mtu <=? n) = true).
+        { unfold att_input in A. rewrite G in A. destruct (len pdu =? 0); [discriminate|].
+          destruct (N.min n (negotiated_mtu c k) <? default_att_mtu) eqn:L; [discriminate|].
+          apply N.ltb_ge in L. apply N.leb_le. lia. }
+        rewrite Hn.
+        assert (exists op, rd pdu 0 = Some op) as (op & Hop).
+        { unfold att_input in A. rewrite G in A. destruct (len pdu =? 0); [discriminate|].
+          destruct (_ <? _); [discriminate|]. destruct (rd pdu 0); [eauto|discriminate]. }
+        destruct (N.eq_dec op 2) as [->|N2].
+        -- destruct (att_input_exchange _ _ _ _ _ _ _ _ G Hop A) as (r & HE).
+           destruct (valid_exchange pdu) as [v|] eqn:V.
+           ++ apply valid_exchange_inv in V. destruct V as (lo & hi & -> & -> & Lv).
+              destruct (exchange_mtu_valid c st cid lo hi (repeat fill_byte (N.to_nat n)) (N.min n (negotiated_mtu c k)) k) as (b' & HV & _ & HL); auto.
+              { rewrite len_repeat. apply N.leb_le in Hn. unfold default_att_mtu in Hn. lia. }
+              rewrite HV in HE. inv HE. eexists. split; [eapply set_conn_get; eauto|reflexivity].
+           ++ assert (st' = st).
+              { eapply exchange_mtu_invalid_unchanged'; eauto. }
+              subst. eauto.
+        -- rewrite (valid_exchange_not2 _ _ Hop N2).
+           pose proof (att_input_frameb _ _ _ _ _ _ _ _ Hop A) as F.
+           replace (op =? 2) with false in F by (symmetry; apply N.eqb_neq; auto).
+           destruct (frame_this _ _ _ _ _ F) as (k0 & k1 & G0 & G1 & C). rewrite G in G0. inv G0.
+           exists k1. split; auto. eapply conn_change_mtu. eauto.
+      * (* Fault: the state is unchanged; a valid exchange never faults *)
+        exists k. split; auto.
+        destruct (default_att_mtu <=? n) eqn:Hn; auto.
+        destruct (valid_exchange pdu) as [v|] eqn:V; auto. exfalso.
+        apply valid_exchange_inv in V. destruct V as (lo & hi & -> & -> & Lv). apply N.leb_le in Hn.
+        rewrite (att_input_opcode2 c st cid [2; lo; hi] n k G eq_refl) in A by (unfold negotiated_mtu; lia).
+        destruct (exchange_mtu_valid c st cid lo hi (repeat fill_byte (N.to_nat n)) (N.min n (negotiated_mtu c k)) k) as (b' & HV & _ & HL); auto.
+        { rewrite len_repeat. unfold default_att_mtu in Hn. lia. }
+        rewrite HV in A. rewrite len_repeat in HL.
+        replace (3 <=? len b') with true in A by (symmetry; apply N.leb_le; unfold default_att_mtu in Hn; lia). discriminate.
+    + cbn [andb]. apply Nat.eqb_neq in Ei.
+      destruct (att_input c st i pdu n) as [[st' rs]|] eqn:A; cbn [fst]; eauto.
+      exists k. split; auto. rewrite (frame_other _ _ _ _ _ cid (att_input_frame _ _ _ _ _ _ _ A)); auto.
+  - (* l2cap_output *)
+    destruct (att_output c st i n) as [[st' rs]|] eqn:A; cbn [fst]; eauto.
+    pose proof (att_output_frameb _ _ _ _ _ _ A) as F.
+    destruct (Nat.eq_dec cid i) as [->|N].
+    + destruct (frame_this _ _ _ _ _ F) as (k0 & k1 & G0 & G1 & C). rewrite G in G0. inv G0.
+      exists k1. split; auto. eapply conn_change_mtu. eauto.
+    + exists k. split; auto. rewrite (frame_other _ _ _ _ _ cid F); auto.
+  - destruct (get_conn st i) as [k0|] eqn:G0; cbn [fst]; eauto.
+    destruct (Nat.eq_dec cid i) as [->|N].
+    + rewrite G in G0. inv G0. eexists. split; [eapply set_conn_get; eauto|reflexivity].
+    + exists k. split; auto. rewrite set_conn_get_other; auto.
+  - cbn [fst]. destruct (Nat.eqb i cid) eqn:Ei.
+    + apply Nat.eqb_eq in Ei. subst. eexists. split.
+      * apply set_conn_get with (k0 := k). unfold get_conn in *. rewrite wq_free_conns. exact G.
+      * reflexivity.
+    + apply Nat.eqb_neq in Ei. exists k. split; auto. rewrite set_conn_get_other by auto.
+      unfold get_conn in *. rewrite wq_free_conns. exact G.
+  - assert (R : forall d, exists k', get_conn (fst (request st kd d)) cid = Some k' /\ client_mtu k' = client_mtu k).
+    { intros d. unfold request. destruct (queue_all (conns st) _) as [l rs] eqn:Q. cbn [fst].
+      destruct (queue_all_spec _ _ _ _ Q) as (_ & N0). unfold get_conn in *. cbn [conns].
+      rewrite (N0 _ _ G). eexists. split; [reflexivity|]. unfold nq_step. destruct (NQueueModel.step _ _). reflexivity. }
+    destruct bu.
+    + destruct (by_uuid_available c kd gci); cbn [fst]; eauto.
+      unfold notify_by_uuid. destruct (nth_error (all_chars c) gci) as [x|]; cbn [fst]; eauto.
+      destruct (find_notification_by_uuid c (c_uuid (snd x))) as [d|]; cbn [fst]; eauto.
+      specialize (R d). destruct (request st kd d). exact R.
+    + destruct (by_value_available c gci); cbn [fst]; eauto.
+      unfold notify_by_value. destruct (find_notification_data c gci) as [d|]; cbn [fst]; eauto.
+      specialize (R d). destruct (request st kd d). exact R.
+  - destruct (has_var c gci) as [[w h]|]; cbn [fst]; eauto.
+  - destruct (has_var c gci) as [[[|] h]|]; cbn [fst]; eauto.
+Qed.
+
+Lemma mtu_after_ge cid m o : default_att_mtu <= m -> default_att_mtu <= mtu_after cid m o.
+Proof.
+  intros H. destruct o; cbn [mtu_after]; auto.
+  - destruct (_ && _); auto. destruct (valid_exchange pdu) eqn:V; auto.
+    apply valid_exchange_inv in V. destruct V as (lo & hi & _ & -> & L). exact L.
+  - destruct (Nat.eqb _ _); auto. lia.
+Qed.
+
+(* after ANY history: the client MTU of connection cid is the last valid client MTU (23 if none) *)
+Theorem client_mtu_history c cid : default_att_mtu <= max_mtu c -> forall ops st k,
+  get_conn st cid = Some k -> default_att_mtu <= client_mtu k ->
+  exists k', get_conn (srv_after c st ops) cid = Some k'
+             /\ client_mtu k' = mtu_history cid (client_mtu k) ops /\ default_att_mtu <= client_mtu k'.
+Proof.
+  intros W. induction ops as [|o t IH]; intros st k G M; cbn [srv_after mtu_history].
+  - exists k. auto.
+  - destruct (srv_step_mtu c st o cid k W G M) as (k1 & G1 & E1).
+    destruct (IH _ k1 G1) as (k' & G' & E' & M'); [rewrite E1; apply mtu_after_ge; auto|].
+    exists k'. rewrite <- E1. auto.
+Qed.
+
+Theorem negotiated_mtu_history c cid ops :
+  wf c -> (cid < n_conns)%nat ->
+  exists k, get_conn (srv_after c (srv_init c) ops) cid = Some k
+            /\ negotiated_mtu c k = N.min (max_mtu c) (mtu_history cid default_att_mtu ops)
+            /\ default_att_mtu <= negotiated_mtu c k.
+Proof.
+  intros W Hc.
+  assert (Wm : default_att_mtu <= max_mtu c).
+  { unfold wf, wf_b in W. repeat (apply andb_true_iff in W; destruct W as [W ?]).
+    match goal with H : (default_att_mtu <=? max_mtu c) = true |- _ => apply N.leb_le in H; exact H end. }
+  assert (G : get_conn (srv_init c) cid = Some (init_conn c)).
+  { unfold get_conn, srv_init. cbn [conns]. apply nth_error_repeat. exact Hc. }
+  destruct (client_mtu_history c cid Wm ops _ _ G) as (k & Gk & E & M); [cbn; lia|].
+  exists k. split; auto. unfold negotiated_mtu. change (client_mtu (init_conn c)) with default_att_mtu in E.
+  split; [rewrite E; reflexivity|lia].
+Qed.
+
+(* ------------------------------------------------------------------ every PDU is bounded *)
+(* l2cap_output: a notification / indication is at most min( buffer, negotiated MTU ) bytes long *)
+Theorem att_output_length c st cid n st' rs k :
+  get_conn st cid = Some k -> att_output c st cid n = Some (st', rs) -> len rs <= N.min n (negotiated_mtu c k).
+Proof.
+  intros G. unfold att_output. rewrite G.
+  destruct (nq_step k Dequeue) as [k1 r].
+  destruct r as [x|[[kd i]|]|]; try (intros H; inv H; unfold len; cbn; lia).
+  destruct (find_notification_data_by_index c (N.of_nat i)) as [ai ci].
+  destruct (negb _ && (3 <=? N.min n (negotiated_mtu c k))) eqn:C.
+  - apply andb_true_iff in C. destruct C as [_ C]. apply N.leb_le in C.
+    intros H. mon.
+    match goal with E0 : access_read _ _ _ _ _ _ _ = Some _ |- _ => apply access_read_len in E0 end.
+    match goal with H : match ?rc with Success => _ | _ => _ end = Some _ |- _ => destruct rc end; mon;
+      try (unfold len; cbn; lia).
+    rewrite len_takeN. lia.
+  - intros H. inv H. unfold len; cbn; lia.
+Qed.
+
+(* l2cap_input: C01 (b) *)
+Theorem att_input_length c st cid pdu n st' rs k :
+  get_conn st cid = Some k -> att_input c st cid pdu n = Some (st', rs) -> len rs <= N.min n (negotiated_mtu c k).
+Proof. intros G A. eapply att_input_length_and_frame; eauto. Qed.
+
+(* both, along any history, against the SPECIFIED MTU *)
+Theorem every_pdu_bounded c ops cid :
+  wf c -> (cid < n_conns)%nat ->
+  let st := srv_after c (srv_init c) ops in
+  let mtu := N.min (max_mtu c) (mtu_history cid default_att_mtu ops) in
+  default_att_mtu <= mtu
+  /\ (forall pdu n st' rs, att_input c st cid pdu n = Some (st', rs) -> len rs <= N.min n mtu)
+  /\ (forall n st' rs, att_output c st cid n = Some (st', rs) -> len rs <= N.min n mtu).
+Proof.
+  intros W Hc st mtu. destruct (negotiated_mtu_history c cid ops W Hc) as (k & G & E & M).
+  fold st in G. fold mtu in E. rewrite E in M. split; auto. split.
+  - intros pdu n st' rs A. rewrite <- E. eapply att_input_length; eauto.
+  - intros n st' rs A. rewrite <- E. eapply att_output_length; eauto.
 Qed.
